@@ -47,7 +47,7 @@ def r2_1(ctx):
 
 def perform_run(ctx, heap, colls=None):
     f = ctx.repo.method(TASK, "perform")
-    I = mk_interp(ctx, collections=colls or {})
+    I = mk_interp(ctx, collections=colls or {}, inline=same_class_helpers(TASK), max_depth=3)
     h = {("self", "remaining_work_amount"): Poly.sym("old"), ("self", "target_component"): Const(None), ("self", "name"): Const("taskname")}
     h.update(heap)
     return f, I.run_function(f, bind={"time": Poly.sym("t"), "seed": Const(None), "__defaults__": True}, heap=h)
